@@ -11,6 +11,13 @@ CSSP = "src/nla/cssp.rs"
 items = stubs_of(F.UNIT.items, "frame")
 A = items.append
 
+# tpkt::Client::new: frame's contract cannot mention cert_checked()/peer_key() (defined in this unit), so the (one line) body is
+# RE-VERIFIED here against frame's clauses plus the two TLS-attribute clauses start_ssl / start_nla need (nothing assumed).
+_i_new = [i for i, x in enumerate(items) if x.kind == "stub" and x.name == "new" and x.mod == "tpkt"]
+assert len(_i_new) == 1
+items[_i_new[0]] = Fn(TPKT, "new", impl=r"Client<S>", mod="tpkt", props=["C02"],
+                      ensures=list(items[_i_new[0]].ensures) + [("C02", "tls-attributes-kept", "r.cert_checked() == transport.cert_checked() && r.peer_key() == transport.peer_key()")])
+
 # ---- nla interfaces
 A(Item(SSPI, "trait", "GenericSecurityService", mod="sspi"))
 A(Item(SSPI, "trait", "AuthenticationProtocol", mod="sspi"))
@@ -47,13 +54,119 @@ pub open spec fn conn_req_bytes(flags: u8, protocols: u32) -> Seq<u8> { seq![14u
 pub open spec fn neg_rsp_type(p: Seq<u8>) -> u8 { p[7] }
 pub open spec fn neg_rsp_selected(p: Seq<u8>) -> u32 { u32_le(p[11], p[12], p[13], p[14]) }
 """, mod="x224", name="x224_nego_specs"))
+A(Raw(r"""
+/// full shape (names, kinds, endianness, checked constant) of the three layouts of the connection PDU
+pub open spec fn is_neg(m: MV) -> bool {
+    m is Comp && ({ let n = m->Comp_0;
+        n.len() == 4 && n[0].0 == "type"@ && n[0].1 is U8 && n[1].0 == "flag"@ && n[1].1 is U8
+        && n[2] == ("length"@, MV::Check(Box::new(MV::U16(8, true))))
+        && n[3].0 == "result"@ && n[3].1 is U32 && n[3].1->U32_1 })
+}
+pub open spec fn is_crq(m: MV) -> bool {
+    m is Comp && ({ let h = m->Comp_0;
+        h.len() == 3 && h[0].0 == "len"@ && h[0].1 is U8 && h[1].0 == "code"@ && h[1].1 is U8 && h[2].0 == "padding"@ && h[2].1 is Trame && ({
+          let t = h[2].1->Trame_0; t.len() == 3 && t[0] is U16 && t[1] is U16 && t[2] is U8 }) })
+}
+pub open spec fn is_conn_pdu(m: MV) -> bool {
+    m is Comp && ({ let g = m->Comp_0; g.len() == 2 && g[0].0 == "header"@ && is_crq(g[0].1) && g[1].0 == "negotiation"@ && is_neg(g[1].1) })
+}
+pub open spec fn pdu_neg(m: MV) -> Seq<(Seq<char>, MV)> { m->Comp_0[1].1->Comp_0 }
+pub open spec fn pdu_type(m: MV) -> u8 { pdu_neg(m)[0].1->U8_0 }
+pub open spec fn pdu_result(m: MV) -> u32 { pdu_neg(m)[3].1->U32_0 }
+
+pub proof fn lemma_le32_roundtrip(v: u32)
+    ensures u32_le(le32(v)[0], le32(v)[1], le32(v)[2], le32(v)[3]) == v, le32(v).len() == 4
+{
+    assert((((v & 0xff) as u8) as u32) | ((((v >> 8) & 0xff) as u8) as u32) << 8 | ((((v >> 16) & 0xff) as u8) as u32) << 16 | ((((v >> 24) & 0xff) as u8) as u32) << 24 == v) by(bit_vector);
+}
+
+/// Message::read keeps the layout (same_shape), hence the full shape of the connection PDU
+pub proof fn lemma_conn_pdu_shape(a: MV, b: MV)
+    requires is_conn_pdu(a), same_shape(a, b)
+    ensures is_conn_pdu(b)
+{
+    reveal_with_fuel(same_shape, 5);
+    let g1 = a->Comp_0; let g2 = b->Comp_0;
+    assert(g1[0].0 == g2[0].0 && same_shape(g1[0].1, g2[0].1));
+    assert(g1[1].0 == g2[1].0 && same_shape(g1[1].1, g2[1].1));
+    let h1 = g1[0].1->Comp_0; let h2 = g2[0].1->Comp_0;
+    assert(h1[0].0 == h2[0].0 && same_shape(h1[0].1, h2[0].1));
+    assert(h1[1].0 == h2[1].0 && same_shape(h1[1].1, h2[1].1));
+    assert(h1[2].0 == h2[2].0 && same_shape(h1[2].1, h2[2].1));
+    let t1 = h1[2].1->Trame_0; let t2 = h2[2].1->Trame_0;
+    assert(same_shape(t1[0], t2[0]));
+    assert(same_shape(t1[1], t2[1]));
+    assert(same_shape(t1[2], t2[2]));
+    let n1 = g1[1].1->Comp_0; let n2 = g2[1].1->Comp_0;
+    assert(n1[0].0 == n2[0].0 && same_shape(n1[0].1, n2[0].1));
+    assert(n1[1].0 == n2[1].0 && same_shape(n1[1].1, n2[1].1));
+    assert(n1[2].0 == n2[2].0 && same_shape(n1[2].1, n2[2].1));
+    assert(n1[3].0 == n2[3].0 && same_shape(n1[3].1, n2[3].1));
+}
+
+/// a connection PDU is a static 15 byte layout; byte 7 is the field `type`, bytes 11..15 the little endian field `result` of "negotiation"
+pub proof fn lemma_conn_pdu_bytes(m: MV)
+    requires is_conn_pdu(m)
+    ensures is_static(m), ser(m).len() == 15, ser(m)[7] == pdu_type(m),
+        u32_le(ser(m)[11], ser(m)[12], ser(m)[13], ser(m)[14]) == pdu_result(m)
+{
+    reveal_with_fuel(ser, 8); reveal_with_fuel(ser_fields_from, 8); reveal_with_fuel(ser_seq_from, 8);
+    reveal_with_fuel(is_static, 5);
+    let g = m->Comp_0;
+    let h = g[0].1->Comp_0; let t = h[2].1->Trame_0; let n = g[1].1->Comp_0;
+    assert(ser(t[0]).len() == 2 && ser(t[1]).len() == 2 && ser(t[2]).len() == 1);
+    assert(ser(h[2].1).len() == 5);
+    assert(ser(g[0].1).len() == 7);
+    assert(ser(n[2].1).len() == 2);
+    lemma_le32_roundtrip(pdu_result(m));
+    assert(ser(n[3].1) == le32(pdu_result(m)));
+    assert(ser(g[1].1) =~= seq![pdu_type(m)] + ser(n[1].1) + ser(n[2].1) + le32(pdu_result(m)));
+    assert(ser(m) =~= ser(g[0].1) + ser(g[1].1));
+}
+""", mod="x224", name="x224_nego_lemmas"))
 A(Fn(X224, "rdp_neg_req", mod="x224", ret="c", props=["C02", "C04", "C17"], fuel=8,
-     ensures=shape_clauses(X224, "rdp_neg_req", res="c") + [("C04,C17", "bytes", "ser(c.mv()) =~= seq![(if neg_type is Some { neg_type->Some_0 as u8 } else { 1u8 }), (if flag is Some { flag->Some_0 } else { 0u8 }), 8u8, 0u8] + le32(if result is Some { result->Some_0 } else { 0u32 })")]))
+     ensures=shape_clauses(X224, "rdp_neg_req", res="c") + [("C04,C17", "bytes", "ser(c.mv()) =~= seq![(if neg_type is Some { neg_type->Some_0 as u8 } else { 1u8 }), (if flag is Some { flag->Some_0 } else { 0u8 }), 8u8, 0u8] + le32(if result is Some { result->Some_0 } else { 0u32 })"),
+                                                             (None, "full-shape", "is_neg(c.mv())")],
+     post="""proof {
+        let f = c.fields();
+        let t = if neg_type is Some { neg_type->Some_0 as u8 } else { 1u8 };
+        let fl = if flag is Some { flag->Some_0 } else { 0u8 };
+        let rs = if result is Some { result->Some_0 } else { 0u32 };
+        assert(f[0] == ("type"@, MV::U8(t)));
+        assert(f[1] == ("flag"@, MV::U8(fl)));
+        assert(f[2] == ("length"@, MV::Check(Box::new(MV::U16(8, true)))));
+        assert(f[3] == ("result"@, MV::U32(rs, true)));
+        assert(le16(8) =~= seq![8u8, 0u8]) by { assert((8u16 & 0xff) as u8 == 8u8 && ((8u16 >> 8) & 0xff) as u8 == 0u8) by(bit_vector); }
+        assert(ser(f[2].1) =~= seq![8u8, 0u8]);
+        assert(ser(f[3].1) == le32(rs));
+        assert(le32(rs).len() == 4);
+     }"""))
 A(Fn(X224, "x224_crq", mod="x224", ret="c", props=["C04"], fuel=8, requires=["len <= 249"],
-     ensures=shape_clauses(X224, "x224_crq", res="c") + [("C04", "bytes", "ser(c.mv()) =~= seq![(len + 6) as u8, code as u8, 0u8, 0u8, 0u8, 0u8, 0u8]")]))
+     ensures=shape_clauses(X224, "x224_crq", res="c") + [("C04", "bytes", "ser(c.mv()) =~= seq![(len + 6) as u8, code as u8, 0u8, 0u8, 0u8, 0u8, 0u8]"),
+                                                          (None, "full-shape", "is_crq(c.mv())")],
+     post="""proof {
+        let f = c.fields();
+        assert(f[0] == ("len"@, MV::U8((len + 6) as u8)));
+        assert(f[1] == ("code"@, MV::U8(code as u8)));
+        assert(f[2].0 == "padding"@ && f[2].1 is Trame);
+        let tv = f[2].1->Trame_0;
+        assert(tv.len() == 3);
+        assert(tv[0] == MV::U16(0, true));
+        assert(tv[1] == MV::U16(0, true));
+        assert(tv[2] == MV::U8(0));
+        assert(le16(0) =~= seq![0u8, 0u8]) by { assert((0u16 & 0xff) as u8 == 0u8 && ((0u16 >> 8) & 0xff) as u8 == 0u8) by(bit_vector); }
+        assert(ser(f[2].1) =~= seq![0u8, 0u8, 0u8, 0u8, 0u8]);
+     }"""))
 A(Fn(X224, "x224_connection_pdu", mod="x224", ret="c", props=["C04", "C17", "C02"], fuel=8,
      ensures=shape_clauses(X224, "x224_connection_pdu", res="c") + [("C04,C17", "bytes", "ser(c.mv()) =~= seq![14u8, 0xE0u8, 0u8, 0u8, 0u8, 0u8, 0u8, (if neg_type is Some { neg_type->Some_0 as u8 } else { 1u8 }), (if mode is Some { mode->Some_0 } else { 0u8 }), 8u8, 0u8] + le32(if protocols is Some { protocols->Some_0 } else { 0u32 })"),
-                                                                     (None, "static", "is_static(c.mv()) && ser(c.mv()).len() == 15")]))
+                                                                     (None, "static", "is_static(c.mv()) && ser(c.mv()).len() == 15"),
+                                                                     (None, "full-shape", "is_conn_pdu(c.mv())")],
+     post="""proof {
+        let f = c.fields();
+        assert(f[0].0 == "header"@ && is_crq(f[0].1));
+        assert(f[1] == ("negotiation"@, negotiation.mv()));
+        lemma_conn_pdu_bytes(c.mv());
+     }"""))
 A(Fn(X224, "new", impl=r"Client<S>", mod="x224", props=["C02"],
      ensures=["r.selected() == selected_protocol && r.tls() == transport.tls() && r.cert_checked() == transport.cert_checked() && r.written() == transport.written() && r.rest() == transport.rest()"]))
 A(Fn(X224, "write_connection_request", impl=r"Client<S>", mod="x224", props=["C17", "C03", "C04"],
@@ -66,7 +179,29 @@ A(Fn(X224, "read_connection_confirm", impl=r"Client<S>", mod="x224", props=["C02
                   &&& neg_rsp_type(p) == 2
                   &&& Protocols::from_repr(neg_rsp_selected(p)) == Some(r->Ok_0)
                   &&& final(tpkt).rest() =~= b.skip(tpkt::frame_len(b)) })"""),
-              (None, "frame", "final(tpkt).written() == old(tpkt).written() && final(tpkt).tls() == old(tpkt).tls() && is_suffix(final(tpkt).rest(), old(tpkt).rest())")]))
+              (None, "frame", "final(tpkt).written() == old(tpkt).written() && final(tpkt).tls() == old(tpkt).tls() && is_suffix(final(tpkt).rest(), old(tpkt).rest())")],
+     pre="let ghost b = tpkt.rest();",
+     hints=[(r"let mut buffer = try_let!", 1, "let ghost p = buffer.rest();"),
+            (r"confirm\.read\(&mut buffer\)\?;", 1, "let ghost m0 = confirm.mv();", "before"),
+            (r"confirm\.read\(&mut buffer\)\?;", 1, """let ghost m = confirm.mv();
+        proof {
+            assert(b[0] == 3 && tpkt::frame_hdr(b) == 4);
+            assert(p =~= b.subrange(4, tpkt::frame_len(b)));
+            lemma_conn_pdu_shape(m0, m);
+            lemma_conn_pdu_bytes(m);
+            assert(ser(m) == p.take(15));
+            assert(p.take(15)[7] == p[7] && p.take(15)[11] == p[11] && p.take(15)[12] == p[12] && p.take(15)[13] == p[13] && p.take(15)[14] == p[14]);
+            let g = confirm.fields();
+            assert(g[1].0 == "negotiation"@);
+            assert(has_key(g, "negotiation"@));
+            assert(first_key(g, "negotiation"@) == 1);
+            let n = pdu_neg(m);
+            assert(n[0].0 == "type"@ && n[3].0 == "result"@);
+            assert(has_key(n, "type"@) && has_key(n, "result"@));
+            assert(first_key(n, "type"@) == 0);
+            assert(first_key(n, "result"@) == 3);
+        }"""),
+            (r"let nego = cast!", 1, "proof { assert(nego.fields() == pdu_neg(m)); }")]))
 A(Fn(X224, "connect", impl=r"Client<S>", mod="x224", props=["C02", "C17", "C03"],
      requires=["!tpkt.tls()"],
      ensures=[("C02", "tls-established", "r is Ok ==> r->Ok_0.tls()"),
